@@ -18,6 +18,7 @@
 #include <algorithm>
 #include <chrono>
 #include <fstream>
+#include <thread>
 
 #include "../ctl/ctl.h"
 #include "../ctl/drv_common.h"
@@ -445,9 +446,109 @@ static int runFree(const drv::Args& a) {
   return 0;
 }
 
+// --------------------------------------------------------------- E5: free-running wake-up races
+// One waiter and one completer per round, truly concurrent (real futex), the completer's call placed at
+// a random offset around the waiter's entry into wait().  The hooks of the library are inert here
+// (no controller), so the race windows BETWEEN two hook points are exercised as well - the controlled
+// executions interleave only at the hook points.  One record per round:
+//   {"e":"Race","kind":"event"|"latch"|"arrive","round":r,"returned":0|1,"done":0|1}
+// returned = the waiter came back within the grace period after the completing call had returned.
+static int runRace(const drv::Args& a) {
+  std::string out = a.str("out", "race.ndjson");
+  FILE* f = fopen(out.c_str(), "w");
+  if (!f)
+    return 2;
+  long long rounds = a.num("race", 1000);
+  uint64_t rng = (uint64_t)a.num("seed", 1) * 0x9e3779b97f4a7c15ULL + 7;
+  const long long graceNs = 10LL * 1000 * 1000 * 1000;
+  struct Shared {
+    std::atomic<long long> round{-1};
+    std::atomic<int> kind{0};
+    std::atomic<long long> entered{-1}, returned{-1};
+    std::atomic<void*> obj{nullptr};
+    std::atomic<int> stop{0};
+  };
+  static Shared sh; // static: a stuck waiter may outlive this function
+  std::thread waiter([]() {
+    long long seen = -1;
+    while (!sh.stop.load(std::memory_order_acquire)) {
+      long long r = sh.round.load(std::memory_order_acquire);
+      if (r == seen)
+        continue;
+      if (r < -1)
+        break; // shutdown marker (the objects of earlier rounds are gone)
+      seen = r;
+      void* o = sh.obj.load(std::memory_order_acquire);
+      int kind = sh.kind.load(std::memory_order_acquire);
+      sh.entered.store(r, std::memory_order_release);
+      if (kind == 0)
+        static_cast<dispenso::CompletionEvent*>(o)->wait();
+      else if (kind == 1)
+        static_cast<dispenso::Latch*>(o)->wait();
+      else
+        static_cast<dispenso::Latch*>(o)->arrive_and_wait();
+      sh.returned.store(r, std::memory_order_release);
+    }
+  });
+  long long lost = 0, done = 0;
+  for (long long r = 0; r < rounds; ++r) {
+    int kind = (int)(ctl::splitmix(rng) % 3);
+    dispenso::CompletionEvent* ev = nullptr;
+    dispenso::Latch* la = nullptr;
+    if (kind == 0)
+      ev = new dispenso::CompletionEvent();
+    else
+      la = new dispenso::Latch(kind == 1 ? 1 : 2);
+    sh.kind.store(kind, std::memory_order_release);
+    sh.obj.store(kind == 0 ? (void*)ev : (void*)la, std::memory_order_release);
+    sh.round.store(r, std::memory_order_release);
+    // spin a random number of iterations so that the completing call lands before, inside and after the
+    // waiter's entry sequence
+    long long spin = (long long)(ctl::splitmix(rng) % 600);
+    while (sh.entered.load(std::memory_order_acquire) != r) {
+    }
+    for (volatile long long k = 0; k < spin; ++k) {
+    }
+    if (kind == 0)
+      ev->notify();
+    else
+      la->count_down();
+    long long t0 = nowNs();
+    bool back = false;
+    while (!(back = sh.returned.load(std::memory_order_acquire) == r) && nowNs() - t0 < graceNs) {
+    }
+    int completed = kind == 0 ? (ev->completed() ? 1 : 0) : (la->try_wait() ? 1 : 0);
+    fprintf(f, "{\"e\":\"Race\",\"kind\":\"%s\",\"round\":%lld,\"returned\":%d,\"done\":%d}\n",
+            kind == 0 ? "event" : kind == 1 ? "latch" : "arrive", r, back ? 1 : 0, completed);
+    ++done;
+    if (!back) {
+      ++lost; // the waiter is stuck in the futex: it cannot be joined, the objects stay alive
+      break;
+    }
+    delete ev;
+    delete la;
+  }
+  fclose(f);
+  printf("DRIVER executions=%lld steps=%lld completed=%lld deadlocks=%lld diverged=0 stuck=0\n", done, done,
+         done - lost, lost);
+  fflush(stdout);
+  if (!lost) {
+    sh.stop.store(1, std::memory_order_release);
+    sh.round.store(-2, std::memory_order_release);
+    waiter.join();
+    return 0;
+  }
+  _exit(0); // a stuck waiter cannot be joined; the record says what happened
+}
+
 // ------------------------------------------------------------------------------------------ main
 int main(int argc, char** argv) {
   drv::Args a(argc, argv);
+  if (a.has("race")) {
+    int rc = runRace(a);
+    fflush(stdout);
+    _exit(rc);
+  }
   if (a.has("free")) {
     int rc = runFree(a);
     fflush(stdout);
